@@ -191,6 +191,46 @@ def expand_matches(text, applied):
         applied.add("R10 matches!(e, p) -> (match e { p => true, _ => false })")
 
 
+def drop_awaits(text, applied):
+    """R9: every `.await` is dropped (the async fn is verified as the sequential composition of its
+    awaits; each awaited call stands for the completed future's output)."""
+    m = R.mask(text)
+    out, last, n = [], 0, 0
+    for mm in re.finditer(r"\s*\.\s*await\b", m):
+        out.append(text[last:mm.start()])
+        last = mm.end()
+        n += 1
+    out.append(text[last:])
+    text = "".join(out)
+    if n:
+        applied.add("R9 `.await` dropped x%d (sequential composition of the awaits)" % n)
+    m = R.mask(text)
+    mm = re.match(r"\s*((?:(?:const|unsafe)\s+)*)async\s+((?:(?:const|unsafe)\s+)*)fn\b", m)
+    if mm:
+        text = text[:mm.start(1)] + text[mm.start(1):mm.end()].replace("async", "", 1).lstrip() + text[mm.end():]
+        applied.add("R9 `async fn` -> `fn`")
+    return text
+
+
+def drop_log_macros(text, applied):
+    """R7: `tracing` log statements (`trace!/debug!/info!/warn!/error!(..);`) are dropped: they only
+    format their arguments for a subscriber and have no effect on control flow or state."""
+    while True:
+        m = R.mask(text)
+        mm = re.search(r"\b(trace|debug|info|warn|error)!\s*\(", m)
+        if not mm:
+            return text
+        close = _paren_end(m, mm.end() - 1)
+        end = close + 1
+        k = end
+        while k < len(text) and text[k] in " \t":
+            k += 1
+        if k < len(text) and text[k] == ";":
+            end = k + 1
+        text = text[:mm.start()] + text[end:]
+        applied.add("R7 tracing log statement %s!(..) dropped" % mm.group(1))
+
+
 def rewrite_mut_self(text, block, applied):
     """R11: Verus has no `mut self` receiver. `fn f(mut self, ..) { B }` is written as
     `fn f(self, ..) { let mut this = self; B[self := this] }` - the same move into a mutable local
@@ -320,6 +360,10 @@ def process_fn(text, block, applied, canary=False):
         text = expand_matches(text, applied)
     if any(k == "mutself" for k, _ in d):
         text = rewrite_mut_self(text, block, applied)
+    if any(k == "droplog" for k, _ in d):
+        text = drop_log_macros(text, applied)
+    if any(k == "deawait" for k, _ in d):
+        text = drop_awaits(text, applied)
     text = rewrite_macros(text, applied)
 
     m = R.mask(text)
